@@ -16,6 +16,7 @@ import itertools
 
 import fiddle as fdl
 
+from vf import canon as C
 from vf import gen
 from vf import model as M
 from vf.common import safe_repr
@@ -242,7 +243,43 @@ def fresh_object(node, v, ctx, call_k, what):
   lst.append((call_k, v))
 
 
+POSONLY_VA = [f for f in sigs.ALL if sigs.SHAPES[f.__name__]['pk'] == 0 and sigs.SHAPES[f.__name__]['po'] >= 1
+              and sigs.SHAPES[f.__name__]['dpos'] >= 1 and sigs.SHAPES[f.__name__]['ko'] == 0
+              and not sigs.SHAPES[f.__name__]['vk']]
+
+
+def run_trailing_default(rng, acc):
+  """All positional-only parameters bound, the last value being THE default object of its
+  parameter; extra positional arguments at call time go where functools.partial puts them
+  (into *args, or a TypeError when there is none)."""
+  fn = rng.choice(POSONLY_VA)
+  params = list(inspect.signature(fn).parameters.values())
+  fixed = [p for p in params if p.kind == p.POSITIONAL_ONLY]
+  args = [Sentinel(i + 1) for i in range(len(fixed))]
+  args[-1] = fixed[-1].default
+  extra = [Sentinel(50 + i) for i in range(rng.choice([1, 2]))]
+  acc.obs('trailing_default_probes')
+  acc.case(('trailing-default', fn.__name__, len(extra)), True)
+  with rec.Trace():
+    try:
+      exp = ('ok', functools.partial(fn, *args)(*extra))
+    except TypeError:
+      exp = ('raise', 'TypeError')
+    built = fdl.build(fdl.Partial(fn, *args))
+    try:
+      got = ('ok', built(*extra))
+    except TypeError:
+      got = ('raise', 'TypeError')
+  same = exp[0] == got[0] and (exp[0] == 'raise' or C.canon(exp[1], 'built') == C.canon(got[1], 'built'))
+  if not same:
+    acc.violation('call-differs-from-functools-partial:trailing-positional-identical-to-default',
+                  f'{fn.__name__}{inspect.signature(fn)}: functools.partial gives {safe_repr(exp, 120)}, '
+                  f'the built Partial {safe_repr(got, 120)}', {'target': fn.__name__})
+
+
 def run_case(rng, acc):
+  if rng.random() < 0.08:
+    return run_trailing_default(rng, acc)
   g = G(rng)
   fn = rng.choice(ROOT_FNS)
   m = M.ArgModel(fn)
@@ -256,6 +293,13 @@ def run_case(rng, acc):
     if p.kind == p.POSITIONAL_ONLY and p.default is p.empty:
       npos = max(npos, i + 1)
   args_nodes = [g.value(3, True) for _ in range(npos + va_len)]
+  # explicitly configured values that ARE the parameter's default object (identity, not just ==):
+  # configured is configured - they are bound like any other value
+  for i in range(min(npos, m.n)):
+    if (m.P[i].default is not m.P[i].empty and m.P[i].name != 'uid' and rng.random() < 0.3
+        and type(m.P[i].default).__name__ != '_HAS_DEFAULT_FACTORY_CLASS'):
+      args_nodes[i] = gen.Leaf(m.P[i].default)
+      acc.obs('positional_value_identical_to_default')
   kw_nodes = {}
   for p in m.P[npos:]:
     if p.kind == p.POSITIONAL_OR_KEYWORD and (p.default is p.empty or rng.random() < 0.6):
